@@ -8,6 +8,7 @@ import glob, json, os, subprocess, sys
 from concurrent.futures import ThreadPoolExecutor
 
 SRC, PREFIX = sys.argv[1], sys.argv[2]
+ONLY = sys.argv[3:]
 OUT = '/verif/benign'
 PY = '/venv/bin/python'
 
@@ -55,6 +56,8 @@ def one(d):
 
 
 dirs = sorted(os.path.dirname(p) for p in glob.glob(os.path.join(SRC, '*', '*', 'equiv.py')) if os.path.exists(os.path.join(os.path.dirname(p), 'patch.diff')))
+if ONLY:
+    dirs = [d for d in dirs if any(os.path.relpath(d, SRC).startswith(o + '/') or os.path.relpath(d, SRC) == o for o in ONLY)]
 with ThreadPoolExecutor(8) as ex:
     out = list(ex.map(one, dirs))
 for r in out:
